@@ -55,7 +55,7 @@ class SchedulerScriptAdapter(ScriptAdapter):
     # Allocation regex and compilation
     # Keeping this one here for legacy.
     launcher_regex = re.compile(
-        re.escape(launcher_var) + r"\[(?P<alloc>.*)\]")
+        re.escape(launcher_var) + r"\[(?P<alloc>.*?)\]")
 
     # We can have multiple requested submission properties.
     # Legacy allocation of nodes and procs.
